@@ -207,7 +207,7 @@ def build(fb=None):
                      doc="for ANY rule list: an operation no rule applies to comes back as [operation] (in particular with an empty rule list); the ordered action of the decomposition equals the action of the operation, given that every rule's production does where its "
                          "predicate holds (induction on the number of rules; the recursive call enters by this contract on strictly fewer rules)")
     obs = [vprop.fn_ob("C18", c1, {}, call=lambda ns, a: ns["_orig_decompose_operation"](a["operation"], a["decomposition_rules"]), setup=setup, fallback=fb,
-                       obid="C18.decompose_operation.all_rule_lists.contract", desc=c1.doc, timeout_ms=60000,
+                       obid="C18.decompose_operation.all_rule_lists.contract", desc=c1.doc, timeout_ms=60000, ob_timeout=90.0, max_paths=60,
                        extra_stubs=lambda: {"decompose_operation": rec_stub, "__track_base": track_base})]
     # ---- decompose_operations: the per-operation results concatenated in the order of the operations -------------------------------------------------
     def setup2(args, ns):
